@@ -241,13 +241,25 @@ func runC03(c *run.Ctx) {
 			g, env := stdGen(c, "mixed", i, opt, user)
 			t := g.Type(2)
 			e := g.Expr(t, 1+g.R.Intn(opt.MaxDepth))
-			pc := &ProgCase{ID: id, Src: ref.Render(e), E: e, Env: env, User: user}
+			pc := &ProgCase{ID: id, Src: ref.Render(e), E: e, Env: env, User: user, SameEnvObject: i%4 == 0}
 			c.Input(pc.Src)
-			o := RunProg(pc)
+			var more []*bridge.Env
+			if i%2 == 0 {
+				// the same compiled code on further environments (other values and
+				// layouts), bound into fresh objects or into the same object
+				for k := 1; k <= 2; k++ {
+					_, env2 := stdGen(c, "mixed/env", i*4+k, opt, user)
+					more = append(more, env2)
+				}
+			}
+			all := RunProgMulti(pc, more)
+			o := all[0]
 			if o.Accepted() && nontrivial(e) {
 				c.Distinct(progKey(pc.Src))
 			}
-			compareBackends(c, o)
+			for _, ox := range all {
+				compareBackends(c, ox)
+			}
 			if i%997 == 0 {
 				c.Sample(map[string]interface{}{"src": pc.Src, "vm": o.Back[0].describe(), "closure": o.Back[2].describe(), "trace": traceStr(o.Back[0].Res.Obs.Trace)})
 			}
